@@ -419,7 +419,56 @@ Section Rule.
     - destruct Hrn as [_ X]. rewrite K in X. destruct X as (C & _). unfold mapping_nodes. rewrite C. reflexivity.
   Qed.
 
-  (** Step 1: what acceptance by parseRuleStrict means, in terms of the pairs of the mapping. *)
+  (** Step 1: what acceptance by parseRuleStrict means, in terms of the pairs [ps] unpackNodes hands to parseRule. *)
+  Lemma rule_accept_core rn ps :
+    unpack_nodes rn = flatten ps ->
+    (forall kv, In kv ps -> n_alias (fst kv) = None) ->
+    r_error (PRS lines rn) = None ->
+    exists s,
+      ps <> [] /\
+      (forall kv, In kv ps -> field_of (key_text kv) <> FUnknown) /\
+      NoDup (map key_text ps) /\
+      (forall f, f <> FUnknown -> slots_spec plines lines 0 f ps slots0 s) /\
+      (forall c, In c (rule_checks metric_ok lname_ok lvalue_ok 0 rn s) -> c = None) /\
+      rule_final s = (PRS lines rn, false).
+  Proof.
+    intros Hu Hna Herr.
+    unfold parse_rule_strict in *.
+    destruct (negb (is_tag (n_tag rn) mapTag)) eqn:Et; [discriminate|].
+    rewrite Hu in *.
+    destruct (bad_rule_key (flatten ps)) eqn:Bk; [discriminate|].
+    destruct (PR lines 0 rn) as [r e] eqn:PRE. destruct e; [discriminate|].
+    unfold parse_rule in PRE. rewrite Hu in PRE.
+    destruct (rule_loop plines lines 0 (flatten ps) None slots0) as [r0|s] eqn:RL.
+    { inversion PRE; subst. exfalso. exact (rule_loop_inl_err _ _ _ _ RL Herr). }
+    destruct (first_some (rule_checks metric_ok lname_ok lvalue_ok 0 rn s)) as [[pe [f l]]|] eqn:FS.
+    { inversion PRE; subst. discriminate Herr. }
+    pose proof (rule_loop_slots plines lines 0 ps slots0 s Hna RL) as Hsl.
+    pose proof (bad_rule_key_flatten ps Hna Bk) as Hknown.
+    exists s. repeat split.
+    - intros E. rewrite E in RL. cbn in RL. inversion RL; subst s. cbn in PRE. discriminate PRE.
+    - exact Hknown.
+    - apply keys_nodup; [exact Hknown|]. intros f0 Hf0. specialize (Hsl f0 Hf0). unfold slots_spec in Hsl.
+      destruct (find_field f0 ps) as [[k x]|]; [destruct Hsl as (_ & _ & ->); lia|destruct Hsl as (_ & ->); cbn; lia].
+    - exact Hsl.
+    - exact (first_some_none _ FS).
+    - exact PRE.
+  Qed.
+
+  Lemma accepted_is_map rn : r_error (PRS lines rn) = None -> is_tag (n_tag rn) mapTag = true.
+  Proof.
+    unfold parse_rule_strict. destruct (negb (is_tag (n_tag rn) mapTag)) eqn:Et; [discriminate|]. intros _. now apply negb_false_iff.
+  Qed.
+
+  Lemma guard_not_seq rn : rule_guard rn -> is_tag (n_tag rn) mapTag = true -> n_kind rn <> KSequence.
+  Proof. intros [[_ H] _] Et K. rewrite K in H. destruct H as (T & _). rewrite T in Et. discriminate. Qed.
+
+  Lemma ups_noalias_keys rn : rule_guard rn -> forall kv, In kv (ups rn) -> n_alias (fst kv) = None.
+  Proof.
+    intros Hp kv Hin. unfold ups in Hin. apply in_map_iff in Hin. destruct Hin as ([k x] & <- & Hin). cbn [fst].
+    destruct (proj2 Hp k x Hin) as [Hpk _]. exact (proj1 (plain_self k Hpk)).
+  Qed.
+
   Lemma rule_accept_facts rn :
     rule_guard rn -> r_error (PRS lines rn) = None ->
     let ps := ups rn in
@@ -432,39 +481,12 @@ Section Rule.
       rule_final s = (PRS lines rn, false).
   Proof.
     intros Hp Herr ps. pose proof (proj1 Hp) as Hrn.
-    unfold parse_rule_strict in *.
-    destruct (negb (is_tag (n_tag rn) mapTag)) eqn:Et; [discriminate|].
-    assert (Ks : n_kind rn <> KSequence).
-    { intros K. destruct Hrn as [_ H]. rewrite K in H. apply negb_false_iff in Et. destruct H as (T & _). rewrite T in Et. discriminate. }
-    rewrite (unpack_guard rn Hp Ks) in *. fold ps in Herr |- *.
-    destruct (bad_rule_key (flatten ps)) eqn:Bk; [discriminate|].
-    destruct (PR lines 0 rn) as [r e] eqn:PRE. destruct e; [discriminate|].
-    unfold parse_rule in PRE. rewrite (unpack_guard rn Hp Ks) in PRE. fold ps in PRE.
-    assert (Hc : n_content rn = flatten (mapping_nodes rn) /\ (n_kind rn = KMapping \/ n_content rn = [])).
-    { pose proof Hrn as [Ha H]. destruct (n_kind rn) eqn:K; try contradiction.
-      - split; [|left; reflexivity]. apply plain_mapping_content; [exact Hrn|exact K].
-      - destruct H as (C & _). unfold mapping_nodes. rewrite C. split; [reflexivity|right; reflexivity]. }
-    destruct Hc as [Hc Hk].
-    destruct (rule_loop plines lines 0 (flatten ps) None slots0) as [r0|s] eqn:RL.
-    { inversion PRE; subst. exfalso. exact (rule_loop_inl_err _ _ _ _ RL Herr). }
-    destruct (first_some (rule_checks metric_ok lname_ok lvalue_ok 0 rn s)) as [[pe [f l]]|] eqn:FS.
-    { inversion PRE; subst. discriminate Herr. }
-    assert (Hna : forall kv, In kv ps -> n_alias (fst kv) = None).
-    { intros kv Hin. unfold ps, ups in Hin. apply in_map_iff in Hin. destruct Hin as ([k x] & <- & Hin). cbn [fst].
-      destruct (proj2 Hp k x Hin) as [Hpk _]. exact (proj1 (plain_self k Hpk)). }
-    pose proof (rule_loop_slots plines lines 0 ps slots0 s Hna RL) as Hsl.
-    pose proof (bad_rule_key_flatten ps Hna Bk) as Hknown.
-    exists s. repeat split.
-    - destruct Hk as [K|C]; [exact K|]. exfalso.
-      assert (ps = []) by (unfold ps, ups, mapping_nodes; rewrite C; reflexivity).
-      rewrite H in RL. cbn in RL. inversion RL; subst s. cbn in PRE. discriminate PRE.
-    - exact Hc.
-    - exact Hknown.
-    - apply keys_nodup; [exact Hknown|]. intros f0 Hf0. specialize (Hsl f0 Hf0). unfold slots_spec in Hsl.
-      destruct (find_field f0 ps) as [[k x]|]; [destruct Hsl as (_ & _ & ->); lia|destruct Hsl as (_ & ->); cbn; lia].
-    - exact Hsl.
-    - exact (first_some_none _ FS).
-    - exact PRE.
+    pose proof (guard_not_seq rn Hp (accepted_is_map rn Herr)) as Ks.
+    destruct (rule_accept_core rn ps (unpack_guard rn Hp Ks) (ups_noalias_keys rn Hp) Herr) as (s & Hne & A & B & C & D & E).
+    assert (K : n_kind rn = KMapping).
+    { pose proof Hrn as [_ H]. destruct (n_kind rn) eqn:K; try contradiction; try reflexivity.
+      exfalso. apply Hne. destruct H as (Cn & _). unfold ps, ups, mapping_nodes. rewrite Cn. reflexivity. }
+    exists s. split; [exact K|]. split; [exact (plain_mapping_content rn Hrn K)|]. auto.
   Qed.
 
   Lemma field_name_in f : f <> FUnknown -> In (field_name f) rule_fields.
@@ -783,17 +805,21 @@ Section Rule.
     rewrite E1, E2, E3, T. apply annotations_facts_t. exact Hp.
   Qed.
 
-  Theorem rule_sound rn glabels :
-    rule_guard rn ->
+  (** The core, for any description [ps] of what unpackNodes hands to parseRule and any assignment list [a_prom] the
+      Prometheus decoder builds, as long as dec_rule cannot tell the two apart. *)
+  Theorem rule_sound_core rn glabels ps a_prom :
+    unpack_nodes rn = flatten ps ->
+    (forall k x, In (k, x) ps -> n_alias k = None /\ exists t, views x t /\ tgt_ok t) ->
+    dec_fields str_ok null_ok (Some rule_fields) rn = DOk a_prom ->
+    rule_tail a_prom = rule_tail (map (fun kv => (key_text kv, snd kv)) ps) ->
     r_error (PRS lines rn) = None ->
     rule_blocks expr_ok dur_ok tmpl_pint glabels (PRS lines rn) = false ->
     exists pr, dec_rule str_ok null_ok dur_ok rn = DOk pr /\
                rule_valid expr_ok dur_zero metric_ok lname_ok lvalue_ok tmpl_prom pr = true.
   Proof.
-    intros Hp Herr Hblk.
-    destruct (rule_accept_facts rn Hp Herr) as (s & K & Hc & Hknown & Hnd & Hsl & Hall & Hfin).
-    pose proof (rule_decodes rn Hp Herr) as Hdec. cbv zeta in Hdec.
-    set (ps := ups rn) in *.
+    intros Hu Hps Hdec Htail Herr Hblk.
+    destruct (rule_accept_core rn ps Hu (fun kv Hin => proj1 (Hps (fst kv) (snd kv) ltac:(destruct kv; exact Hin))) Herr)
+      as (s & Hne & Hknown & Hnd & Hsl & Hall & Hfin).
     set (a := map (fun kv => (key_text kv, snd kv)) ps) in *.
     (* slots as lookups *)
     pose proof (slot_scalar ps s FRecord I (Hsl FRecord ltac:(discriminate))) as Sr. cbn [get_sc] in Sr.
@@ -820,7 +846,7 @@ Section Rule.
     pose proof (Lk FExpr ltac:(discriminate)) as Le. pose proof (Lk FFor ltac:(discriminate)) as Lf.
     pose proof (Lk FKeep ltac:(discriminate)) as Lkp. pose proof (Lk FLabels ltac:(discriminate)) as Ll.
     pose proof (Lk FAnn ltac:(discriminate)) as Ln. cbn [field_name] in Lr, La, Le, Lf, Lkp, Ll, Ln. clear Lk.
-    rewrite dec_rule_tail, Hdec, <- rule_tail_unp, <- ups_assign. fold ps. fold a. unfold rule_tail.
+    rewrite dec_rule_tail, Hdec, Htail. unfold rule_tail.
     (* tag facts *)
     assert (T5 : forall k n, In (k, Some n) [("record", onode (s_record s)); ("alert", onode (s_alert s)); ("expr", onode (s_expr s));
                                              ("for", onode (s_for s)); ("keep_firing_for", onode (s_keep s))] ->
@@ -841,9 +867,7 @@ Section Rule.
       - exact (Hknown (k, x) Hin).
       - apply Hsl. exact (Hknown (k, x) Hin). }
     assert (Hpl : forall f k x, find_field f ps = Some (k, x) -> (exists t, views x t /\ tgt_ok t) /\ In (k, x) ps).
-    { intros f k x E. destruct (find_field_In f ps k x E) as [Hin _]. split; [|exact Hin].
-      unfold ps, ups in Hin. apply in_map_iff in Hin. destruct Hin as ([k0 x0] & E0 & Hin0). inversion E0; subst k x.
-      destruct (proj2 Hp k0 x0 Hin0) as [_ (t & Hs & Ht)]. exists t. split; [exact (views_unp x0 t Hs)|exact Ht]. }
+    { intros f k x E. destruct (find_field_In f ps k x E) as [Hin _]. split; [|exact Hin]. exact (proj2 (Hps k x Hin)). }
     assert (Hnn : forall x t, views x t -> (n_tag x = nullTag -> n_value x = "") -> node_value x <> "" -> n_tag x <> nullTag).
     { intros x t (_ & _ & _ & _ & _ & V1 & V2) Hn Hv T. specialize (Hn T).
       destruct (n_alias x) as [tt|] eqn:Ax.
@@ -984,5 +1008,27 @@ Section Rule.
       + destruct HL as (_ & L1 & L2). rewrite L1, L2. reflexivity.
       + destruct HN as (_ & N1 & N2). rewrite N1, N2. reflexivity.
       + reflexivity.
+  Qed.
+  Lemma ups_views rn : rule_guard rn -> forall k x, In (k, x) (ups rn) -> n_alias k = None /\ exists t, views x t /\ tgt_ok t.
+  Proof.
+    intros Hp k x Hin. split; [exact (ups_noalias_keys rn Hp (k, x) Hin)|].
+    unfold ups in Hin. apply in_map_iff in Hin. destruct Hin as ([k0 x0] & E0 & Hin0). inversion E0; subst k x.
+    destruct (proj2 Hp k0 x0 Hin0) as [_ (t & Hs & Ht)]. exists t. split; [exact (views_unp x0 t Hs)|exact Ht].
+  Qed.
+
+  Theorem rule_sound rn glabels :
+    rule_guard rn ->
+    r_error (PRS lines rn) = None ->
+    rule_blocks expr_ok dur_ok tmpl_pint glabels (PRS lines rn) = false ->
+    exists pr, dec_rule str_ok null_ok dur_ok rn = DOk pr /\
+               rule_valid expr_ok dur_zero metric_ok lname_ok lvalue_ok tmpl_prom pr = true.
+  Proof.
+    intros Hp Herr Hblk.
+    pose proof (guard_not_seq rn Hp (accepted_is_map rn Herr)) as Ks.
+    apply (rule_sound_core rn glabels (ups rn) (map (fun kv => (key_text kv, snd kv)) (mapping_nodes rn))); auto.
+    - exact (unpack_guard rn Hp Ks).
+    - exact (ups_views rn Hp).
+    - exact (rule_decodes rn Hp Herr).
+    - now rewrite ups_assign, rule_tail_unp.
   Qed.
 End Rule.
